@@ -100,7 +100,8 @@ def sd_random(rnd, count, maxlen=40):
         for _ in range(rnd.randint(3, maxlen)):
             r = rnd.random()
             if r < 0.25 * ps + 0.1: toks.append('S')
-            elif r < 0.45: toks.append('A')
+            elif r < 0.40: toks.append('A')
+            elif r < 0.45: toks.append('F')
             elif r < 0.6: toks.append('c%d' % rnd.randrange(n))
             else: toks.append('W%d' % rnd.randrange(n))
         L.append('sd %d %s' % (n, ' '.join(toks)))
@@ -120,6 +121,9 @@ def sd_lines(tier, rnd):
             for i in range(7):
                 toks.append('S'); toks.extend(rest[:gap]); rest = rest[gap:]
             L.append('sd 2 ' + ' '.join(toks + rest))
+    # accept4 failing (no free descriptor) in the batch that also carries the shutdown edge, and around it
+    for pre in (['c0', 'S', 'S', 'A', 'F'], ['c0', 'A', 'S', 'S', 'F', 'A', 'A'], ['c0', 'c0', 'A', 'F', 'S', 'S', 'A', 'F'], ['c0', 'F', 'F', 'A', 'S', 'S', 'S', 'A', 'A']):
+        L.append('sd 1 ' + ' '.join(pre + ['W0', 'S', 'S', 'S', 'W0', 'A']))
     L += sd_random(rnd, 300 if tier == 'quick' else 6000)
     return L
 
@@ -138,7 +142,8 @@ def oracle_sd(ln, out):
             started = True; ncaller += 1
             if l == 'd': done = True; since = {}
             if ncaller >= 2 * nw + 3 and not done: return ('shutdown', 'shutdown() has not returned after %d of its own steps' % ncaller)
-        elif t[0] in 'AW':
+        elif t[0] in 'AWF':
+            if t == 'F': t = 'A'
             if l == 'x' and not started: return ('spurious-exit', 'thread %s left its loop although shutdown() was never called' % t)
             if done:
                 since[t] = since.get(t, 0) + 1
@@ -181,7 +186,7 @@ RULE = ('route level (router without and with a custom not-found handler): every
         'method table incl. methods nobody registered, all clients released together, shutdown() after the load, in the middle of it, or right after serveThreaded() with no client at all: every answer must carry its own request\'s tag, shutdown must return, stop the acceptor and leave '
         'no framework thread; the same scenarios run on a ThreadSanitizer build, any report is a violation. shutdown protocol (op sd): a real threaded Tcp::Listener whose acceptor, workers and the caller of shutdown() are parked at the '
         'system-call boundary (epoll_wait entry / events collected / before and after each eventfd_write) and stepped by a schedule: every schedule up to length 5 (quick) / 7 (thorough) with one worker, shutdown() started at every point of a busy '
-        'two-worker history, seeded random schedules with 1-4 workers and connections dispatched to chosen workers; the label after every step and the final join are compared with Model/Shutdown.lean. non-trivial = distinct (op, parameters, outcome)')
+        'two-worker history, seeded random schedules with 1-4 workers, connections dispatched to chosen workers and acceptor steps during which accept4 fails for lack of descriptors; the label after every step and the final join are compared with Model/Shutdown.lean. non-trivial = distinct (op, parameters, outcome)')
 ASSUME = ['shutdown protocol: the kernel behaviour of edge-triggered eventfds, the level-triggered listening socket and the order of the epoll ready list is what Model/Shutdown.lean states (sampled by the sd correspondence on every run); preemption between instructions not separated by a system call is not exhibited',
           'ThreadSanitizer sees only the interleavings the OS scheduler produced during the run (sampling, not a proof of race freedom)', 'the handler is a pure function of the request',
           'thread termination is observed through /proc/self/task within 1.5 s of shutdown() returning (endpoint still alive) and again within 1 s of destroying the endpoint']
